@@ -636,6 +636,11 @@ def w_patches(ctx, rng, i):
                    sample={"cls": cls, "channels": C, "patch_shape": [ph, pw], "centres": ck, "order": order, "mode": mode} if i < 5 else None)
 
 
+def tx_maxdiff(a, b):
+    a, b = np.asarray(a, dtype=float), np.asarray(b, dtype=float)
+    return float("inf") if a.shape != b.shape else (float(np.abs(a - b).max()) if a.size else 0.0)
+
+
 def w_many_centres(ctx, rng, i):
     """Dense sampling: a patch around every pixel of a grid (thousands of centres - several million sampling locations): every
     patch, the last one as the first, is the block of pixels around its centre on either path."""
@@ -662,8 +667,22 @@ def w_many_centres(ctx, rng, i):
     r = im.extract_patches(ms.PointCloud(c), patch_shape=(ph, pw), sample_offsets=offs, order=1, mode="nearest", as_single_array=True)
     if np.asarray(r).shape != a.shape or _amax(np.asarray(r, dtype=float) - a) > 1e-9:
         ctx.fail("patch_values_differ_from_nearest_neighbour_reference", cls="Image", mech="many_centres:order1_at_integer_centres")
+    # the landmark convenience wrapper: the same patches as for the same centres given directly - also for landmarks that lie
+    # outside the image (annotations of a picture that was cropped afterwards)
+    H2, W2 = int(rng.integers(8, 30)), int(rng.integers(8, 30))
+    im2 = [mi.Image, mi.MaskedImage][rng.integers(0, 2)](rng.random((C, H2, W2)))
+    lmp = np.round(rng.uniform(-6, 1.0, (5, 2)) * 0 + rng.uniform([-6, -6], [H2 + 6, W2 + 6], (5, 2)))
+    im2.landmarks["marks"] = ms.PointCloud(lmp)
+    psh = (int(rng.integers(2, 7)), int(rng.integers(2, 7)))
+    ctx.tap("patches_around_landmarks", "calls"); ctx.tap("patches_around_landmarks", "checked")
+    ra = np.asarray(im2.extract_patches_around_landmarks(group="marks", patch_shape=psh, as_single_array=True))
+    rb = np.asarray(im2.extract_patches(ms.PointCloud(lmp.copy()), patch_shape=psh, as_single_array=True))
+    if ra.shape != rb.shape or not np.array_equal(ra, rb, equal_nan=True):
+        ctx.fail("patch_values_differ_from_nearest_neighbour_reference", cls=type(im2).__name__, mech="around_landmarks_differs_from_the_same_centres_given_directly")
+    if tx_maxdiff(im2.landmarks["marks"].points, lmp) > 0:
+        ctx.fail("patch_extraction_modified_the_image", cls=type(im2).__name__, mech="landmarks_moved")
     ctx.count_case(("many_centres", ph, pw, offs is None, min(len(c) // 2000, 4)), nontrivial=True)
 
 
 WORKLOADS = [Workload("crop", w_crop, quick=3600, thorough=200000), Workload("patches", w_patches, quick=3150, thorough=160000),
-             Workload("many_centres", w_many_centres, quick=8, thorough=160)]
+             Workload("many_centres", w_many_centres, quick=24, thorough=300)]
